@@ -4,7 +4,7 @@ use std::sync::Arc;
 
 use crate::{
     Actor, Handler,
-    channel::{ChanTx, WeakChanTx},
+    channel::{ChanTx, ForceChanTx, WeakChanTx, WeakForceChanTx},
     context::ContextID,
     error::ActorError::AlreadyStopped,
 };
@@ -33,20 +33,29 @@ impl<M: Message> WeakCaller<M> {
         }
     }
 
-    fn new<A>(tx: ChanTx<A>, id: ContextID) -> Self
+    fn new<A>(tx: ChanTx<A>, force_tx: ForceChanTx<A>, id: ContextID) -> Self
     where
         A: Actor + Handler<M>,
         M: Message,
     {
-        Self::from_weak_tx(Arc::downgrade(&tx), id)
+        Self::from_weak_tx(Arc::downgrade(&tx), Arc::downgrade(&force_tx), id)
     }
 
-    pub(crate) fn from_weak_tx<A>(weak_tx: WeakChanTx<A>, id: ContextID) -> Self
+    pub(crate) fn from_weak_tx<A>(
+        weak_tx: WeakChanTx<A>,
+        weak_force_tx: WeakForceChanTx<A>,
+        id: ContextID,
+    ) -> Self
     where
         A: Actor + Handler<M>,
         M: Message,
     {
-        let upgrade = Box::new(move || weak_tx.upgrade().map(|tx| Caller::new(tx, id)));
+        let upgrade = Box::new(move || {
+            weak_tx
+                .upgrade()
+                .zip(weak_force_tx.upgrade())
+                .map(|(tx, force_tx)| Caller::new(tx, force_tx, id))
+        });
 
         WeakCaller { upgrade, id }
     }
@@ -57,7 +66,11 @@ where
     A: Actor + Handler<M>,
 {
     fn from(addr: Addr<A>) -> Self {
-        Self::new(addr.payload_tx.to_owned(), addr.context_id)
+        Self::new(
+            addr.payload_tx.to_owned(),
+            addr.payload_force_tx.to_owned(),
+            addr.context_id,
+        )
     }
 }
 
@@ -66,7 +79,11 @@ where
     A: Actor + Handler<M>,
 {
     fn from(addr: &Addr<A>) -> Self {
-        Self::new(addr.payload_tx.to_owned(), addr.context_id)
+        Self::new(
+            addr.payload_tx.to_owned(),
+            addr.payload_force_tx.to_owned(),
+            addr.context_id,
+        )
     }
 }
 
